@@ -39,7 +39,21 @@ func (e *Effect) WaitFor(n int64) bool {
 	return true
 }
 
+// UseFormatLogger makes New configure the breaker with a formatting logger and verbose mode.
+var UseFormatLogger bool
+
+// NextRequestHeaders, if set, are added to the next request issued by Start.
 var Epoch = time.Date(2026, 3, 1, 0, 0, 0, 0, time.UTC)
+
+// FormatLogger formats every message like a real logger does (which calls the breaker's
+// String() while the breaker holds its lock).
+type FormatLogger struct{ Lines atomic.Int64 }
+
+func (l *FormatLogger) log(f string, a ...interface{})   { _ = fmt.Sprintf(f, a...); l.Lines.Add(1) }
+func (l *FormatLogger) Debug(f string, a ...interface{}) { l.log(f, a...) }
+func (l *FormatLogger) Info(f string, a ...interface{})  { l.log(f, a...) }
+func (l *FormatLogger) Warn(f string, a ...interface{})  { l.log(f, a...) }
+func (l *FormatLogger) Error(f string, a ...interface{}) { l.log(f, a...) }
 
 type Driver struct {
 	T         Fataler
@@ -68,9 +82,12 @@ func New(t Fataler, expr string, f, r, p time.Duration, phase time.Duration) *Dr
 		w.Header().Set("X-Fallback", "1")
 		w.WriteHeader(http.StatusServiceUnavailable)
 	})
-	cb, err := cbreaker.New(d.Gate, expr,
-		cbreaker.FallbackDuration(f), cbreaker.RecoveryDuration(r), cbreaker.CheckPeriod(p),
-		cbreaker.OnTripped(d.OnTripped), cbreaker.OnStandby(d.OnStandby), cbreaker.Fallback(fb))
+	opts := []cbreaker.Option{cbreaker.FallbackDuration(f), cbreaker.RecoveryDuration(r), cbreaker.CheckPeriod(p),
+		cbreaker.OnTripped(d.OnTripped), cbreaker.OnStandby(d.OnStandby), cbreaker.Fallback(fb)}
+	if UseFormatLogger {
+		opts = append(opts, cbreaker.Logger(&FormatLogger{}), cbreaker.Verbose(true))
+	}
+	cb, err := cbreaker.New(d.Gate, expr, opts...)
 	if err != nil {
 		t.Fatalf("cbreaker.New(%q): %v", expr, err)
 	}
@@ -97,11 +114,17 @@ func (d *Driver) Advance(dur time.Duration) {
 
 // Start issues one request. passed reports whether it reached the protected
 // handler (and is now in flight) or was answered by the fallback.
-func (d *Driver) Start() (passed bool) {
+func (d *Driver) Start(headers ...string) (passed bool) {
 	before := d.Fallbacks
-	c, err := d.Gate.Start(d.CB, httptest.NewRequest("GET", "http://x/", nil))
+	req := httptest.NewRequest("GET", "http://x/", nil)
+	for i := 0; i+1 < len(headers); i += 2 {
+		req.Header.Add(headers[i], headers[i+1])
+	}
+	c, err := d.Gate.Start(d.CB, req)
 	if err != nil {
-		d.T.Fatalf("%v", err)
+		// the clock is frozen and the handler is a gate: a request that neither reaches the
+		// handler nor gets an answer is stuck inside the breaker
+		d.T.Fatalf("a request arriving at +%v was never answered (neither by the handler nor by the fallback): %v\n%s", d.Now, strings.TrimPrefix(err.Error(), "INFRA: "), d.History())
 	}
 	if c.Entered {
 		if d.Fallbacks != before {
@@ -119,11 +142,15 @@ func (d *Driver) Start() (passed bool) {
 }
 
 // Finish completes in-flight request i with the given status.
-func (d *Driver) Finish(i int, status int) {
+func (d *Driver) Finish(i int, status int, info ...int) {
 	f := d.InFlight[i]
 	d.InFlight = append(d.InFlight[:i], d.InFlight[i+1:]...)
-	if err := f.C.Finish(sim.Outcome{Status: status}); err != nil {
-		d.T.Fatalf("%v", err)
+	o := sim.Outcome{Status: status}
+	if len(info) > 0 {
+		o.Info = info[0]
+	}
+	if err := f.C.Finish(o); err != nil {
+		d.T.Fatalf("the completion of a request was never processed by the breaker: %v\n%s", strings.TrimPrefix(err.Error(), "INFRA: "), d.History())
 	}
 	if f.C.Panicked != nil {
 		d.T.Fatalf("breaker panicked: %v", f.C.Panicked)
